@@ -163,7 +163,7 @@ PLANS["C03"] = {
         step("asan", "firv-views", 48000),
         step("dbg", "firv-views", 48000),
         step("rel", "firv-views", 100000, sub="sweep"),
-        step("miri", "firv-views", 640, shards=16, timeout=3000),
+        step("miri", "firv-views", 256, shards=16, timeout=3000),
         step("miri", "firv-views", 0, sub="splits", prop_arg="C14", shards=16, timeout=3000),
         step("miri", "firv-views", 0, sub="interleave", prop_arg="C14", shards=2, timeout=3000),
         step("asan", "firv-views", 0, sub="quads", prop_arg="C04"),
@@ -269,3 +269,133 @@ FLOORS["C14"] = {"quick": [
      lambda o: o["counters"]["split_some"] >= 10 ** 4 and o["counters"]["split_none"] >= 10 ** 5 and o["counters"]["mut_split_calls"] >= 10 ** 5 and o["counters"]["pixels_read_back_through_parent"] >= 10 ** 6),
 ]}
 FLOORS["C14"]["thorough"] = FLOORS["C14"]["quick"]
+
+PLANS["C06"] = {
+    "rule": "u8: exhaustive - all 65 536 (colour, alpha) pairs shifted through every lane of rows of length 1..40, U8x2/U8x4, multiply and "
+            "divide, 3 back-ends, 4 entry points; u16: all colours for 13 special alphas and vice versa plus random blocks of 65 536 pairs "
+            "(quick) / all 2^32 pairs (thorough, sub u16full); f32: rows of special and random finite values; unsupported: the 7 non-alpha "
+            "types must be rejected by all four entry points; oracle = exact integer arithmetic (multiply: round half up of c*a/max; divide: "
+            "floor or ceil of c*max/a saturated at max, a=0 -> 0; alpha unchanged) and single IEEE operations for floats; "
+            "non-trivial = every block; distinct = distinct block descriptor",
+    "assumptions": ["NEON/WASM kernels are not executable on this host", "float inputs are finite (NaN is not generated)"],
+    "exhaustive": {"quick": False, "thorough": True},
+    "quick": [step("rel", "firv-misc", 0, sub="u8", timeout=3000), step("rel", "firv-misc", 400, sub="u16"), step("rel", "firv-misc", 40000, sub="f32"),
+              step("rel", "firv-misc", 0, sub="unsupported", shards=1), step("dbg", "firv-misc", 60, sub="u16"), step("asan", "firv-misc", 60, sub="u16"),
+              step("asan", "firv-misc", 4000, sub="f32")],
+    "thorough": [step("rel", "firv-misc", 0, sub="u8", timeout=7200), step("rel", "firv-misc", 4000, sub="u16", timeout=7200),
+                 step("rel", "firv-misc", 0, sub="u16full", timeout=14000), step("rel", "firv-misc", 4000000, sub="f32", timeout=7200),
+                 step("rel", "firv-misc", 0, sub="unsupported", shards=1), step("dbg", "firv-misc", 400, sub="u16", timeout=7200),
+                 step("asan", "firv-misc", 0, sub="u8", timeout=14000), step("asan", "firv-misc", 400, sub="u16", timeout=7200)],
+}
+FLOORS["C06"] = {"quick": [
+    (">= 10^9 pixels judged, >= 10^8 saturating divisions (colour > alpha)", lambda o: o["counters"]["pixels_judged"] >= 10 ** 9 and o["counters"]["saturating_divisions"] >= 10 ** 8),
+    ("all 32 lane residues used in the 8-bit step", lambda o: len(o["sets"]["lanes_mod_32"]) == 32),
+]}
+FLOORS["C06"]["thorough"] = FLOORS["C06"]["quick"]
+
+PLANS["C09"] = {
+    "rule": "random histories of 40-200 operations on one long-lived Resizer (and its clones): resizes mixing all 13 pixel types (pixel "
+            "sizes 1..16), growing then shrinking sizes, alpha on/off, every algorithm, saturated contents, erroring calls, "
+            "reset_internal_buffers, clone (both copies continue), back-end switches; every call's output is compared bit for bit with the "
+            "same call on Resizer::new(); the H3 scratch hook proves reuse-without-growth, growth and (under Miri, where Vec<u8> is 1-aligned) "
+            "misaligned-head paths were executed; non-trivial = every history; distinct = distinct history descriptor",
+    "assumptions": CONV_ASSUME,
+    "quick": [step("rel", "firv-misc", 3200), step("asan", "firv-misc", 640), step("miri", "firv-misc", 160, shards=16, timeout=3000)],
+    "thorough": [step("rel", "firv-misc", 160000, timeout=7200), step("asan", "firv-misc", 32000, timeout=7200),
+                 step("miri", "firv-misc", 1600, shards=16, timeout=20000)],
+}
+FLOORS["C09"] = {"quick": [
+    (">= 10^5 calls compared, scratch reuse without growth and growth both seen >= 1000 times, resets and clones >= 1000",
+     lambda o: o["counters"]["calls_compared"] >= 10 ** 5 and o["counters"]["scratch_reused_bigger_than_needed"] >= 1000 and o["counters"]["scratch_grown"] >= 1000 and o["counters"]["resets"] >= 1000 and o["counters"]["clones"] >= 1000),
+    ("misaligned scratch head (align_to_mut gap) observed", lambda o: o["counters"]["scratch_misaligned_head"] >= 1),
+    ("all pixel sizes 1,2,3,4,6,8,12,16 seen", lambda o: len(o["sets"]["pixel_sizes"]) == 8),
+]}
+FLOORS["C09"]["thorough"] = FLOORS["C09"]["quick"]
+
+PLANS["C15"] = {
+    "rule": "exhaustive: all (src w, src h, dst w, dst h) in 1..=24 with 4 centerings; random: 10^7 (quick) / 10^9 (thorough) quadruples "
+            "in 1..=65 535 biased to near-equal ratios (dst = k*src +- 1), centerings incl. 0, 0.5, 1, -3, 7, +-inf, 1-eps; the returned box "
+            "must be inside the source as the validator judges it, have the destination aspect to 1e-12, span one dimension, and sit at the "
+            "clamped centering of the margin; resize: fit_into_destination through Resizer::resize on small images never errors; "
+            "non-trivial = every block / case; distinct = distinct descriptor",
+    "assumptions": ["NaN centering is excluded (property)"],
+    "exhaustive": {"quick": False, "thorough": False},
+    "quick": [step("rel", "firv-misc", 0, sub="exhaustive"), step("dbg", "firv-misc", 0, sub="exhaustive"),
+              step("rel", "firv-misc", 10000000, sub="random"), step("dbg", "firv-misc", 1000000, sub="random"),
+              step("rel", "firv-misc", 40000, sub="resize")],
+    "thorough": [step("rel", "firv-misc", 0, sub="exhaustive"), step("dbg", "firv-misc", 0, sub="exhaustive"),
+                 step("rel", "firv-misc", 1000000000, sub="random", timeout=7200), step("dbg", "firv-misc", 100000000, sub="random", timeout=7200),
+                 step("rel", "firv-misc", 2000000, sub="resize", timeout=7200)],
+}
+FLOORS["C15"] = {"quick": [
+    (">= 10^7 function calls, >= 10^5 near-equal-ratio quadruples, >= 10^5 resize calls",
+     lambda o: o["counters"]["function_calls"] >= 10 ** 7 and o["counters"]["near_equal_ratio_quadruples"] >= 10 ** 5 and o["counters"]["resize_calls"] >= 10 ** 5),
+]}
+FLOORS["C15"]["thorough"] = FLOORS["C15"]["quick"]
+
+PLANS["C16"] = {
+    "rule": "exhaustive: sRGB and gamma-2.2 mappers x forward/backward x 4 depth pairs x 1..4 components x two-image/in-place: every "
+            "component value of the source depth at every component position, rows of width 1..9 so that alpha falls on every row position; "
+            "oracle: table entry = round(f(v/max_in)*max_out) with f in f64 (a neighbour accepted within 1e-4*max_out of a rounding tie, "
+            "tables are built in f32), monotone, 0->0, max->max, alpha = depth conversion, sRGB 8->16->8 identity; errors: all 169 type "
+            "pairs x mismatched sizes must be rejected with the destination untouched; non-trivial = every combination",
+    "assumptions": ["transfer functions as documented in src/color/mappers.rs (sRGB piecewise, gamma 2.2)"],
+    "exhaustive": {"quick": True, "thorough": True},
+    "quick": [step("rel", "firv-misc", 0, sub="tables"), step("rel", "firv-misc", 0, sub="errors", shards=2), step("dbg", "firv-misc", 0, sub="errors", shards=2)],
+    "thorough": [step("rel", "firv-misc", 0, sub="tables"), step("dbg", "firv-misc", 0, sub="tables", timeout=7200), step("asan", "firv-misc", 0, sub="tables", timeout=7200),
+                 step("rel", "firv-misc", 0, sub="errors", shards=2), step("dbg", "firv-misc", 0, sub="errors", shards=2)],
+}
+FLOORS["C16"] = {"quick": [
+    (">= 5*10^7 components checked, 256 round-trip values, every alpha row position for widths 1..9",
+     lambda o: o["counters"]["components_checked"] >= 5 * 10 ** 7 and o["counters"]["roundtrip_values_checked"] == 256 and len(o["sets"]["alpha_row_positions"]) == 45),
+]}
+FLOORS["C16"]["thorough"] = FLOORS["C16"]["quick"]
+
+PLANS["C17"] = {
+    "rule": "all 43 supported (source, destination, component count) pairs: integer sources exhaustively (256 / 65 536 values), I32 and F32 "
+            "sources with boundary values (min, max, +-0, +-inf, denormals, range ends +- 1 ulp) and 60 000 random values per block; oracle: "
+            "monotone non-decreasing on the sorted inputs, nominal endpoints map to nominal endpoints, out-of-range floats saturate, NaN does "
+            "not fail, widen-then-narrow is the identity; errors: all 169 pixel type pairs x mismatched sizes rejected, destination untouched; "
+            "non-trivial = every (pair, block)",
+    "assumptions": ["nominal ranges: U8 [0,255], U16 [0,65535], F32 [0,1] against unsigned and [-1,1] against I32, I32 [0,MAX] against unsigned and [MIN,MAX] against F32"],
+    "exhaustive": {"quick": False, "thorough": False},
+    "quick": [step("rel", "firv-misc", 34, sub="values"), step("dbg", "firv-misc", 8, sub="values"), step("rel", "firv-misc", 0, sub="errors", shards=2)],
+    "thorough": [step("rel", "firv-misc", 3400, sub="values", timeout=7200), step("dbg", "firv-misc", 340, sub="values", timeout=7200), step("rel", "firv-misc", 0, sub="errors", shards=2)],
+}
+FLOORS["C17"] = {"quick": [
+    (">= 10^7 values converted, >= 10^6 round trips", lambda o: o["counters"]["values_converted"] >= 10 ** 7 and o["counters"]["round_trips"] >= 10 ** 6),
+]}
+FLOORS["C17"]["thorough"] = FLOORS["C17"]["quick"]
+
+PLANS["C08"] = {
+    "rule": "diff: resizes (13 pixel types, all algorithms, crops, destinations 40..260 per side so that bands exist) and alpha operations are "
+            "run in a 1-thread pool and in pools of 2..32 threads (and more threads than rows/columns) with seeded spin/yield jitter at band "
+            "starts (H4 hook), results compared bit for bit; strips: 1xN, Nx1, 2xN images with N in {255..257, 4095..4097, 65535..65537, 70000, "
+            "92681, 92682, 131072, 300000} in pools of 2, 7, 32 threads; parts: the band-count functions on 10^6 size pairs incl. 2^k, 2^k+-1 up "
+            "to 2^32-1 (no panic, parts <= extent); thorough adds ThreadSanitizer; Miri (Tree Borrows + race detector) runs multi-band row "
+            "scenarios (must be clean) and column scenarios (D13b known finding) and column scenarios with the borrow tracker off (must be "
+            "clean: no real access overlaps); non-trivial = a run that was split into > 1 band; distinct = distinct descriptor",
+    "assumptions": CONV_ASSUME + ["schedules come from the OS scheduler, jitter and Miri's seeded scheduler; no exhaustive interleaving search"],
+    "quick": [step("rel+rayon", "firv-threads", 6400), step("dbg+rayon", "firv-threads", 960),
+              step("rel+rayon", "firv-threads", 0, sub="strips"), step("dbg+rayon", "firv-threads", 0, sub="strips"),
+              step("rel+rayon", "firv-threads", 1000000, sub="parts", shards=4), step("dbg+rayon", "firv-threads", 1000000, sub="parts", shards=4),
+              step("miri+rayon", "firv-threads", 16, sub="miri_h", shards=16, timeout=3000),
+              step("miri+rayon", "firv-threads", 4, sub="miri_v", shards=4, timeout=3000),
+              step("miri+rayon", "firv-threads", 8, sub="miri_v", shards=8, timeout=3000, miriflags="-Zmiri-disable-stacked-borrows", tag="noborrow")],
+    "thorough": [step("rel+rayon", "firv-threads", 200000, timeout=10000), step("dbg+rayon", "firv-threads", 20000, timeout=10000),
+                 step("tsan+rayon", "firv-threads", 2000, timeout=10000),
+                 step("rel+rayon", "firv-threads", 0, sub="strips"), step("dbg+rayon", "firv-threads", 0, sub="strips"), step("tsan+rayon", "firv-threads", 0, sub="strips", timeout=10000),
+                 step("rel+rayon", "firv-threads", 100000000, sub="parts"), step("dbg+rayon", "firv-threads", 10000000, sub="parts"),
+                 step("miri+rayon", "firv-threads", 160, sub="miri_h", shards=16, timeout=20000),
+                 step("miri+rayon", "firv-threads", 4, sub="miri_v", shards=4, timeout=3000),
+                 step("miri+rayon", "firv-threads", 160, sub="miri_v", shards=16, timeout=20000, miriflags="-Zmiri-disable-stacked-borrows", tag="noborrow")],
+}
+FLOORS["C08"] = {"quick": [
+    (">= 10^4 multi-band splits, >= 10^5 bands, both axes and >= 12 distinct (axis, parts) splits, >= 100 distinct schedules",
+     lambda o: o["counters"]["multi_band_splits"] >= 10 ** 4 and o["counters"]["bands_executed"] >= 10 ** 5 and len(o["sets"]["splits_axis_parts"]) >= 12
+     and any(s.startswith("v") for s in o["sets"]["splits_axis_parts"]) and any(s.startswith("h") for s in o["sets"]["splits_axis_parts"]) and len(o["sets"]["schedules"]) >= 100),
+    ("pool sizes 2..32 and beyond seen (>= 20 distinct)", lambda o: len(o["sets"]["pool_sizes"]) >= 20),
+    ("all 14 strip lengths incl. 65536 and beyond", lambda o: len([s for s in o["sets"]["strip_lengths"] if int(s) >= 255]) >= 14),
+    (">= 10^6 size pairs through the band-count functions, >= 10^5 with area beyond u32", lambda o: o["counters"]["size_pairs"] >= 10 ** 6 and o["counters"]["pairs_with_area_beyond_u32"] >= 10 ** 5),
+]}
+FLOORS["C08"]["thorough"] = FLOORS["C08"]["quick"]
